@@ -120,6 +120,10 @@ REGRESSION_SPECS = [
      "kwargs": {"maxcor": 10, "ftol": 0.0, "gtol": 1e-10, "maxiter": 8, "maxfun": 500, "maxls": 20}},
     # a zero-length trial step right after the split: the uninterrupted run is served from the wrapper's cache, the
     # restarted run evaluates at the checkpoint's point (false alarm of the first thorough run; see equiv.strip_cached)
+    # subspace point one ulp outside the box -> outward direction component on a variable at its bound -> maximum step 0 ->
+    # failed line search in the restarted run only (thorough tier, repaired by 53e4fa7)
+    {"family": "rosenbrock", "n": 4, "pseed": 196702556, "cond": 1.1064069174927953, "kmax": 20, "cmp": 6,
+     "kwargs": {"maxcor": 3, "ftol": 0.0, "gtol": 1e-10, "maxiter": 10, "maxfun": 500, "maxls": 3}},
     {"family": "rosenbrock", "n": 5, "pseed": 325236788, "cond": 52.39293522280546, "kmax": 7, "cmp": 6,
      "kwargs": {"maxcor": 5, "ftol": 0.0, "gtol": 1e-10, "maxiter": 11, "maxfun": 500, "maxls": 20}},
 ]
